@@ -575,6 +575,10 @@ func rbGenSpec(t *rapid.T, o rbGenOpts) *rbSpec {
 		if !o.SmallPayloads {
 			maxSize = rapid.SampledFrom([]int{40, 300, 3000}).Draw(t, "maxSize")
 		}
+		if spec.Video == "" && spec.Audio == "opus" && maxSize > 1000 {
+			// an Opus packet must fit one RTP packet (RTPMaxPayloadSize 1450): the stream rejects bigger ones
+			maxSize = 1000
+		}
 		leadingNonSync := 0
 		if spec.Video == "av1" && rapid.IntRange(0, 5).Draw(t, "lead") == 0 {
 			leadingNonSync = rapid.IntRange(1, 3).Draw(t, "leadN")
